@@ -9,7 +9,7 @@ var mutationSymbols = []string{"(?=a)", "(?!a)", `\1`, `\2`, "(", ")", "[", "]",
 
 // manyGroupBases are extra mutation bases with 9, 10 and 11 capturing groups, so
 // that \10 and \11 are back-references (15.10.2.9) in some of the mutants.
-var manyGroupBases = []string{"(a)(b)(a)(b)(a)(b)(a)(b)(a)", "(a)(b)(a)(b)(a)(b)(a)(b)(a)(b)", "(a)(b)(a)(b)(a)(b)(a)(b)(a)(b)(a)"
+var manyGroupBases = []string{"(a)(b)(a)(b)(a)(b)(a)(b)(a)", "(a)(b)(a)(b)(a)(b)(a)(b)(a)(b)", "(a)(b)(a)(b)(a)(b)(a)(b)(a)(b)(a)"}
 
 // MutatedPatterns returns every single-symbol insertion into every base
 // pattern, in generation order, without duplicates and without results that
